@@ -40,6 +40,7 @@ import (
 	authtypes "github.com/cosmos/cosmos-sdk/x/auth/types"
 
 	osmoapp "github.com/osmosis-labs/osmosis/v31/app"
+	lockuptypes "github.com/osmosis-labs/osmosis/v31/x/lockup/types"
 
 	"verifharness/apph"
 )
@@ -106,6 +107,10 @@ type exportObs struct {
 	KV      []kvDiff          `json:"kv,omitempty"`           // raw key/value differences original vs re-imported
 	KVLeft  int               `json:"kv_left"`                // differences remaining after the known ones were patched
 	TimeNs  int64             `json:"time_ns"`                // block time of the import
+	ProbeOrig  map[string]string `json:"probe_orig,omitempty"`  // query observables on the original chain at the export point
+	ProbeRe    map[string]string `json:"probe_reimp,omitempty"` // ... on the re-imported chain right after InitChain
+	ProbeFinO  map[string]string `json:"probe_final_orig,omitempty"`  // ... at the end of the history
+	ProbeFinRe map[string]string `json:"probe_final_reimp,omitempty"`
 	FinalKV []kvDiff          `json:"final_kv,omitempty"`     // raw differences at the end of the history (after the replay)
 	RawOrig map[string]json.RawMessage `json:"raw_orig,omitempty"`  // exported genesis of the modules the Coq model covers
 	RawRe   map[string]json.RawMessage `json:"raw_reimp,omitempty"` // ... after the round trip
@@ -162,7 +167,7 @@ func evStrings(evs []abci.Event) []string {
 
 func (c *chain) accAddr(i int) sdk.AccAddress { return sdk.AccAddress(accKey(i).PubKey().Address()) }
 
-var phRe = regexp.MustCompile(`\$(ACC|VAL|MOD|LOCKOF|POSOF|LOCK|POS|GAUGE|POOL|NEXTPOOL|LASTPOOL)\(([A-Za-z0-9_,\-]*)\)`)
+var phRe = regexp.MustCompile(`\$(ACC|VAL|MOD|LASTLOCKOF|LOCKOF|POSOF|LOCK|POS|GAUGE|POOL|NEXTPOOL|LASTPOOL)\(([A-Za-z0-9_,\-]*)\)`)
 
 // resolve substitutes the placeholders of a proto-JSON message against the state visible in ctx.
 func (c *chain) resolve(ctx sdk.Context, raw string) string {
@@ -209,6 +214,15 @@ func (c *chain) resolve(ctx sdk.Context, raw string) string {
 			}
 			sort.Slice(ids, func(x, y int) bool { return ids[x] < ids[y] })
 			return strconv.FormatUint(ids[r%len(ids)], 10)
+		case "LASTLOCKOF": // the newest lock of account i
+			i, _ := strconv.Atoi(arg)
+			var best uint64
+			for _, l := range a.LockupKeeper.GetAccountPeriodLocks(ctx, c.accAddr(i)) {
+				if l.ID > best {
+					best = l.ID
+				}
+			}
+			return strconv.FormatUint(best, 10)
 		case "POSOF":
 			p := strings.Split(arg, ",")
 			i, _ := strconv.Atoi(p[0])
@@ -387,6 +401,7 @@ func (c *chain) runBlock(b blockSpec) blockObs {
 type pending struct {
 	eo     *exportObs
 	orig   map[string]json.RawMessage
+	probes map[string]string
 	kv     map[string]map[string]string
 	state  []byte
 	cp     *cmtproto.ConsensusParams
@@ -437,9 +452,10 @@ func run(t *testing.T, tc tcase) obs {
 	fin := c.exportModules()
 	o.Final = digestOf(fin)
 	finKV := c.dumpStores()
+	finProbes := c.probes()
 	for _, p := range pend {
 		if p.state != nil {
-			p.reimport(t, tc, fin, finKV)
+			p.reimport(t, tc, fin, finKV, finProbes)
 		}
 	}
 	return o
@@ -480,6 +496,8 @@ func (c *chain) export(i int) *pending {
 		}
 	}()
 	eo.InvOrig = invariants(c)
+	eo.ProbeOrig = c.probes()
+	p.probes = eo.ProbeOrig
 	p.kv = c.dumpStores()
 	p.orig = c.exportModules()
 	eo.Orig = digestOf(p.orig)
@@ -503,7 +521,7 @@ func (c *chain) export(i int) *pending {
 
 // reimport: a fresh application initialised from the exported genesis -> per-module export compared byte for
 // byte with the original's -> the remaining history replayed -> final per-module export compared.
-func (p *pending) reimport(t *testing.T, tc tcase, fin map[string]json.RawMessage, finKV map[string]map[string]string) {
+func (p *pending) reimport(t *testing.T, tc tcase, fin map[string]json.RawMessage, finKV map[string]map[string]string, finProbes map[string]string) {
 	eo := p.eo
 	var cb *chain
 	defer func() {
@@ -551,11 +569,25 @@ func (p *pending) reimport(t *testing.T, tc tcase, fin map[string]json.RawMessag
 		}
 	}
 	// raw stores: report every difference, then neutralise the known ones so that the replay below is exact
+	eo.ProbeRe = cb.probes()
 	eo.KV = diffStores(p.kv, cb.dumpStores())
-	eo.KVLeft = cb.patchKnown(eo.KV, p.kv, tc.KVKnown)
+	known := tc.KVKnown
+	if !cb.accumulationMatchesLocks(eo.ProbeRe) {
+		// the import did not rebuild the accumulation store to the sums of the imported locks: leave it as imported
+		// (instead of overwriting it with the original's entries), so that the consequences - superfluid's epoch refresh
+		// of the intermediary delegations - show in the replay
+		known = nil
+		for _, k := range tc.KVKnown {
+			if !(k[0] == "lockup" && k[2] == "20") {
+				known = append(known, k)
+			}
+		}
+	}
+	eo.KVLeft = cb.patchKnown(eo.KV, p.kv, known)
 	for _, blk := range tc.Blocks[eo.At+1:] {
 		eo.Tail = append(eo.Tail, cb.runBlock(blk))
 	}
+	eo.ProbeFinO, eo.ProbeFinRe = finProbes, cb.probes()
 	eo.FinalKV = diffStores(finKV, cb.dumpStores())
 	markKnown(eo.FinalKV, tc.KVKnown)
 	refin := cb.exportModules()
@@ -831,4 +863,135 @@ func (c *chain) runQueries() {
 			_, _ = a.Query(context.Background(), &abci.RequestQuery{Path: path})
 		}()
 	}
+}
+
+// accumulationMatchesLocks: every lockup_accumulation probe equals the sum over the chain's own (synthetic) locks of that
+// denom with at least that duration
+func (c *chain) accumulationMatchesLocks(pr map[string]string) bool {
+	ctx, _ := c.Ctx.CacheContext()
+	a := c.App
+	type ent struct {
+		dur time.Duration
+		amt sdkmath.Int
+	}
+	by := map[string][]ent{}
+	locks, err := a.LockupKeeper.GetPeriodLocks(ctx)
+	if err != nil {
+		return false
+	}
+	byID := map[uint64]sdk.Coins{}
+	for _, l := range locks {
+		byID[l.ID] = l.Coins
+		for _, cn := range l.Coins {
+			by[cn.Denom] = append(by[cn.Denom], ent{l.Duration, cn.Amount})
+		}
+	}
+	for _, sl := range a.LockupKeeper.GetAllSyntheticLockups(ctx) {
+		if cs := byID[sl.UnderlyingLockId]; len(cs) == 1 {
+			by[sl.SynthDenom] = append(by[sl.SynthDenom], ent{sl.Duration, cs[0].Amount})
+		}
+	}
+	for k, v := range pr {
+		if !strings.HasPrefix(k, "lockup_accumulation|") {
+			continue
+		}
+		parts := strings.Split(k, "|")
+		d, _ := strconv.ParseInt(parts[2], 10, 64)
+		sum := sdkmath.ZeroInt()
+		for _, e := range by[parts[1]] {
+			if int64(e.dur) >= d {
+				sum = sum.Add(e.amt)
+			}
+		}
+		if sum.String() != v {
+			return false
+		}
+	}
+	return true
+}
+
+func sameProbes(a, b map[string]string, prefix string) bool {
+	for k, v := range a {
+		if strings.HasPrefix(k, prefix) && b[k] != v {
+			return false
+		}
+	}
+	for k, v := range b {
+		if strings.HasPrefix(k, prefix) && a[k] != v {
+			return false
+		}
+	}
+	return true
+}
+
+// probes: derived values that no exported genesis field and no raw-store comparison (the sum-tree layout legitimately
+// differs) shows, read through the keepers' query functions:
+//   lockup_accumulation|denom|duration      GetPeriodLocksAccumulation for every locked / synthetic denom and every duration
+//                                            in use, one nanosecond below and above it, and 0
+//   superfluid_total_synthetic_locked|denom GetTotalSyntheticAssetsLocked for every synthetic denom
+//   intermediary_delegation|denom|validator staked amount of every superfluid intermediary account
+func (c *chain) probes() (out map[string]string) {
+	out = map[string]string{}
+	defer func() {
+		if r := recover(); r != nil {
+			out["panic"] = fmt.Sprintf("%v", r)
+		}
+	}()
+	a := c.App
+	ctx, _ := c.Ctx.CacheContext()
+	denoms := map[string]bool{}
+	durs := map[time.Duration]bool{0: true}
+	locks, err := a.LockupKeeper.GetPeriodLocks(ctx)
+	if err != nil {
+		panic(err)
+	}
+	for _, l := range locks {
+		durs[l.Duration] = true
+		for _, cn := range l.Coins {
+			denoms[cn.Denom] = true
+		}
+	}
+	synth := map[string]bool{}
+	for _, sl := range a.LockupKeeper.GetAllSyntheticLockups(ctx) {
+		denoms[sl.SynthDenom] = true
+		synth[sl.SynthDenom] = true
+		durs[sl.Duration] = true
+	}
+	for _, d := range a.IncentivesKeeper.GetLockableDurations(ctx) {
+		durs[d] = true
+	}
+	for d := range denoms {
+		for du := range durs {
+			for _, x := range []time.Duration{du - 1, du, du + 1} {
+				if x < 0 {
+					continue
+				}
+				v := a.LockupKeeper.GetPeriodLocksAccumulation(ctx, lockuptypes.QueryCondition{LockQueryType: lockuptypes.ByDuration, Denom: d, Duration: x})
+				out[fmt.Sprintf("lockup_accumulation|%s|%d", d, int64(x))] = v.String()
+			}
+		}
+	}
+	for d := range synth {
+		v, err := a.SuperfluidKeeper.GetTotalSyntheticAssetsLocked(ctx, d)
+		if err != nil {
+			out["superfluid_total_synthetic_locked|"+d] = "error: " + err.Error()
+		} else {
+			out["superfluid_total_synthetic_locked|"+d] = v.String()
+		}
+	}
+	for _, ia := range a.SuperfluidKeeper.GetAllIntermediaryAccounts(ctx) {
+		key := "intermediary_delegation|" + ia.Denom + "|" + ia.ValAddr
+		va, err := sdk.ValAddressFromBech32(ia.ValAddr)
+		if err != nil {
+			out[key] = "bad validator"
+			continue
+		}
+		del, err := a.StakingKeeper.GetDelegation(ctx, ia.GetAccAddress(), va)
+		if err != nil {
+			out[key] = "none"
+			continue
+		}
+		out[key] = del.Shares.String()
+	}
+	return out
 }
